@@ -38,6 +38,9 @@ static void case_history(const Args &a, long idx, bool wantDesc, CaseResult &res
     router->setRoutingParameter(Avoid::segmentPenalty, pen);
     if (orth) router->setRoutingParameter(Avoid::idealNudgingDistance, 1);
     if (!transactions) router->setTransactionUse(false);
+    // some histories also change a routing parameter (shapeBufferDistance) between transactions: the fresh router is built with the current value
+    bool paramHistory = R.coin(orth ? 0.3 : 0.08); double buf = 0; bool bufChanged = false; static const double bufs[] = {0, 0.25, 0.5, 0.75};
+    if (paramHistory && R.coin(0.5)) { buf = bufs[R.ri(1, 3)]; router->setRoutingParameter(Avoid::shapeBufferDistance, buf); }
     struct Guard { Avoid::Router *&r; ~Guard() { if (!std::uncaught_exception()) delete r; } } guard{router};   // a router an assertion unwound through is abandoned, not destroyed
 
     auto fits = [&](const IPoly &pl, int skip) {
@@ -66,7 +69,7 @@ static void case_history(const Args &a, long idx, bool wantDesc, CaseResult &res
     long comparisons = 0, routeChanges = 0;
     std::vector<IPoly> newlyPlaced;   // polygons added or moved to a new position in the transaction just processed
     auto compareWithFresh = [&](const char *when, int txn) {
-        Scene S; S.orthogonal = orth; S.params[Avoid::segmentPenalty] = pen; if (orth) S.params[Avoid::idealNudgingDistance] = 1;
+        Scene S; S.orthogonal = orth; S.params[Avoid::segmentPenalty] = pen; if (orth) S.params[Avoid::idealNudgingDistance] = 1; if (paramHistory) S.params[Avoid::shapeBufferDistance] = buf;
         for (auto &kv : shapes) { ShapeSpec sp; sp.poly = kv.second.poly; sp.isRect = kv.second.isRect; S.shapes.push_back(sp); }
         for (auto &c : conns) { ConnSpec cs; cs.src = c.src; cs.dst = c.dst; S.conns.push_back(cs); }
         Built F; build(S, F);
@@ -172,6 +175,7 @@ static void case_history(const Args &a, long idx, bool wantDesc, CaseResult &res
                 conns[c].ref->setSourceEndpoint(Avoid::ConnEnd(Avoid::Point((double)p.x, (double)p.y))); hist.raw(JObj().str("op", "setSourceEndpoint").i("connector", (long)c).raw("to", ipj(p)).str("note", "unchanged position").done()); anyOp = true; D.i(8); D.i((ll)c);
             }
         }
+        if (paramHistory && R.coin(0.4)) { double nb = bufs[R.ri(0, 3)]; if (nb != buf) { buf = nb; bufChanged = bufChanged || !shapes.empty(); set_stage("setRoutingParameter"); router->setRoutingParameter(Avoid::shapeBufferDistance, buf); hist.raw(JObj().str("op", "setRoutingParameter").str("parameter", "shapeBufferDistance").num("value", buf).done()); anyOp = true; geometricNoopOnly = false; D.i(9); D.d(buf); res.count("shape_buffer_distance_changes"); } }
         set_stage("processTransaction");
         router->processTransaction();
         hist.raw(JObj().str("op", "processTransaction").done());
@@ -193,10 +197,12 @@ static void case_history(const Args &a, long idx, bool wantDesc, CaseResult &res
             for (size_t c = 0; c < conns.size(); c++) if (!sameRoute(b2[c], conns[c].ref->displayRoute()) || !sameRoute(r2[c], conns[c].ref->route())) { res.violate("idle-transaction-changed-route", JObj().i("transaction", tx).i("connector", (long)c).raw("before", routej(b2[c])).raw("after", routej(conns[c].ref->displayRoute())).raw("history", hist.done()).done()); break; }
         }
     }
+    // F95: polyline obstacles keep the buffer they were created with, so every verdict of a polyline history is tagged once the parameter has changed
+    if (!orth && bufChanged) for (auto &f : res.findings) f.key += "[polyline,shapeBufferDistance-changed-earlier-in-the-history]";
     res.count("route_comparisons", comparisons);
     res.nontrivial = routeChanges > 0;
     res.digest = D.h;
-    res.gen = std::string(orth ? "orthogonal" : "polyline") + (transactions ? "/transactions" : "/immediate") + (pen > 0 ? "/penalty" : "/nopenalty") + (lenient ? "/endpoints-inside-shapes" : "");
+    res.gen = std::string(orth ? "orthogonal" : "polyline") + (transactions ? "/transactions" : "/immediate") + (pen > 0 ? "/penalty" : "/nopenalty") + (lenient ? "/endpoints-inside-shapes" : "") + (paramHistory ? "/parameter-changes" : "");
     if (wantDesc || !res.findings.empty()) res.desc = JObj().str("routing", orth ? "orthogonal" : "polyline").b("transactions", transactions).num("segmentPenalty", pen).raw("history", hist.done()).done();
 }
 
